@@ -22,6 +22,7 @@
             &&& sound_facts(nfa)
             // leftmost kinds: the link / output-position facts from which the optimality of the leftmost stream follows (unit lm_opt_bw)
             &&& !(self.match_kind is Standard) ==> lm_opt_facts(nfa)
+            &&& lf_inv(nfa, item_pats(into_items(patvals)), into_items(patvals).len() as int)
             &&& trie_ok(nfa) && reach_ok(nfa) && add_inv(nfa) && seen_is(nfa, into_items(patvals), into_items(patvals).len() as int)
             // C06: registered patterns carry the value of their pair; standard kind: the (assumed) Aho-Corasick contract of the passes
             &&& values_are(nfa, into_items(patvals), into_items(patvals).len() as int)
@@ -46,7 +47,7 @@
         add_inv(nfa), reach_ok(nfa), nfa.match_kind == self.match_kind, nfa.len <= k, nfa.states@.len() <= u32::MAX as nat + 1,
         fresh_links(nfa), nfa.outputs@.len() == 0,
         k > 0 ==> nfa.len > 0,
-        seen_is(nfa, items, k), values_are(nfa, items, k),
+        seen_is(nfa, items, k), values_are(nfa, items, k), lf_inv(nfa, item_pats(items), k),
         forall|i: int| 0 <= i < k ==> (#[trigger] pat_at(items, i)).len() > 0,
         forall|i: int, j: int| 0 <= i < j < k ==> #[trigger] pat_at(items, i) != #[trigger] pat_at(items, j),
     ensures k == items.len(),
@@ -81,6 +82,14 @@
         if k == 0 { assert(!add_shadowed(n_b, pk)) by {
             if add_shadowed(n_b, pk) { let kk = choose|kk: int| 0 <= kk < pk.len() && is_registered(n_b, pk.take(kk)); assert(seen(n_b, pk.take(kk))); }
         } }
+        // C04: registered patterns in terms of the input order
+        assert(item_pats(items)[k] == pk);
+        assert(ps_distinct(item_pats(items), k + 1)) by {
+            assert forall|i: int, j: int| 0 <= i < j < k + 1 implies #[trigger] item_pats(items)[i] != #[trigger] item_pats(items)[j] by {
+                assert(item_pats(items)[i] == pat_at(items, i) && item_pats(items)[j] == pat_at(items, j));
+            }
+        }
+        lemma_lf_inv_step(n_b, nfa, item_pats(items), k);
         // values
         assert forall|j: int| 0 <= j < k + 1 && is_registered(nfa, #[trigger] pat_at(items, j)) implies reg_out(nfa, pat_at(items, j)).unwrap().0 == items[j].1 by {
             if j < k { assert(pat_at(items, j) != pk); assert(is_registered(n_b, pat_at(items, j))); }
@@ -115,6 +124,7 @@
         assert(passes_frame(n_f, nfa));
         assert(passes_frame(n_a, nfa));
         lemma_frame_keeps_trie(n_a, nfa);
+        lemma_lf_inv_frame(n_a, nfa, item_pats(items), items.len() as int);
         lemma_frame_keeps_add_inv(n_a, nfa);
         lemma_sound_facts_intro(nfa);
         if !(self.match_kind is Standard) { lemma_lm_opt_facts_intro(nfa); }
